@@ -287,9 +287,14 @@ def read(pkg_text, top_text):
             ni["axi"] = [[c, estr(v) or "open"] for c, v in it["conns"] if c.startswith("axi_")]
             for f in ("req_o", "rsp_i", "req_i", "rsp_o"):
                 e = conns["floo_" + f]
-                if e[0] != "id":
+                if e[0] == "id":
+                    ni[f] = e[1]
+                elif e[0] in ("fill", "open"):
+                    # a link port tied off or left open: no declared signal carries this name, so the certified wiring
+                    # checker reports the link's real signal as lacking its driver / reader (C05)
+                    ni[f] = "__tied_off__" if e[0] == "fill" else "__left_open__"
+                else:
                     raise SvError(f"{it['name']}: floo_{f}")
-                ni[f] = e[1]
             for f in ("wide_o", "wide_i"):
                 e = conns.get("floo_" + f)
                 ni[f] = None if e is None else e[1]
